@@ -14,6 +14,22 @@ CHECKS = {
             "Values outside the alphabets and grids beyond the cell bound are not covered; integrals are linear in E so the impulse "
             "basis+pairs decide them per grid. dm accepts either moment convention consistently. numpy/xarray are trusted.",
             "3 C01"),
+    "C02": ("exploration", "bex", "exhaustive enumeration of all weak orderings of the frequency bins vs an independent peak finder",
+            "Every weak ordering (every tie pattern) of 3..6/7 frequency bins, realised with three value spacings on three frequency "
+            "families, in 1-D and combined with every cyclic assignment of 7 directional patterns on 4/8-direction grids, goes through "
+            "the real accessor; tp/fp (both kinds), dpm, dpspr, alpha, gamma must agree with one admissible peak of a plain reference "
+            "peak finder, NaN when there is no interior strict maximum, dp with the argmax of the frequency-summed spectrum.",
+            "Peak finding depends only on comparisons, which all weak orderings cover for nf<=6/7; values beyond the three spacings and "
+            "larger nf are not covered. gamma compared only where the peak is the global maximum; exact ties/boundaries are don't-care.",
+            "3 C02"),
+    "C04": ("exploration", "cdrv", "exhaustive enumeration of grids x spectra x level counts x shifts against specpart.c with a flood-fill oracle",
+            "A C driver linked against the repo's specpart.c enumerates every assignment of 2/3/4-value alphabets to every cell of every "
+            "grid shape up to 12 cells (quick; 14 ternary / 18 binary thorough), complete structured families up to 8x8, 8 level "
+            "counts and every circular shift of the direction axis; an independent flood-fill oracle checks labels>=1, one basin per "
+            "regional maximum, connectivity on the cylinder and shift-equivariance. The same product runs through the python wrapper.",
+            "Discretisation ties are don't-care (skipped, counted). Values outside the alphabets / larger grids only via structured "
+            "families. Known finding: value range < 1e-9 is treated as constant.",
+            "3 C04"),
 }
 
 PENDING = {
